@@ -131,6 +131,11 @@ Theorem C15_read_name_fit_rejects_merged :
   read_name_fit [rep 97 40 ++ [BSL]; rep 98 40; [95;120]; [95;116;99;112]; [108;111;99;97;108]] = Err.
 Proof. exact read_name_fit_rejects_merged. Qed.
 
+(* ... and so is a chain of three labels whose adjacent pairs each fit (29+1, 29+1, 30 bytes) *)
+Theorem C15_read_name_fit_rejects_chain :
+  read_name_fit [rep 97 29 ++ [BSL]; rep 98 29 ++ [BSL]; rep 99 30; [108;111;99;97;108]] = Err.
+Proof. exact read_name_fit_rejects_chain. Qed.
+
 (* the regenerated guards are the numbers of the property text *)
 Theorem C15_params_pinned :
   (forall n, label_fits n = (n <? 64)) /\ (forall n, write_utf8_assert n = (n <? 64))
@@ -173,4 +178,5 @@ Print Assumptions C15_fit_name_encodes.
 Print Assumptions C15_reencode_safe.
 Print Assumptions C15_read_name_fit_accepts.
 Print Assumptions C15_read_name_fit_rejects_merged.
+Print Assumptions C15_read_name_fit_rejects_chain.
 Print Assumptions C15_params_pinned.
